@@ -101,6 +101,53 @@ fn adj_from_case(c: &GCase) -> (usize, Vec<Vec<bool>>) {
 
 pub fn g_run(c: &GCase) -> Outcome {
     let (n, adj) = adj_from_case(c);
+    g_core(n, adj, c.enc, c.salt)
+}
+
+/// orders far beyond the quick range: 200..=700 nodes, and the neighbourhoods of 256 and 4096
+/// (byte and 12-bit boundaries of the 18-bit order field), sparse edge sets
+#[derive(Debug, Clone, Serialize, Deserialize)]
+pub struct GLCase {
+    pub n: u16,
+    pub edges: Vec<(u16, u16)>,
+    pub enc: u8,
+    pub salt: u8,
+}
+
+pub fn gl_strategy(_tier: Tier) -> BoxedStrategy<GLCase> {
+    (
+        prop_oneof![6 => 200u16..=700, 6 => 250u16..=262, 1 => 4090u16..=4100],
+        proptest::collection::vec((any::<u16>(), any::<u16>()), 0..40),
+        prop_oneof![Just(0u8), Just(2u8), Just(3u8), Just(5u8), Just(7u8)],
+        any::<u8>(),
+    )
+        .prop_map(|(n, edges, enc, salt)| GLCase { n, edges, enc, salt })
+        .boxed()
+}
+
+pub fn gl_run(c: &GLCase) -> Outcome {
+    let n = c.n as usize;
+    let mut adj = vec![vec![false; n]; n];
+    for &(a, b) in &c.edges {
+        let (i, j) = (crate::util::pick(a, n), crate::util::pick(b, n));
+        if i != j {
+            adj[i][j] = true;
+            adj[j][i] = true;
+        }
+    }
+    let mut obs = g_core(n, adj, c.enc, c.salt)?;
+    obs.nontrivial = true;
+    obs.label_if(n >= 256, "n >= 256");
+    obs.label_if(n >= 4096, "n >= 4096");
+    Ok(obs)
+}
+
+fn g_core(n: usize, adj: Vec<Vec<bool>>, enc_sel: u8, salt8: u8) -> Outcome {
+    struct Sel {
+        enc: u8,
+        salt: u8,
+    }
+    let c = &Sel { enc: enc_sel, salt: salt8 };
     let reference = graph6_reference(n, &adj);
     let edges: Vec<(usize, usize)> = (0..n).flat_map(|j| (0..j).map(move |i| (i, j))).filter(|&(i, j)| adj[i][j]).collect();
     let a = AGraph { directed: false, n, edges: edges.iter().map(|&(i, j)| if (i + j + c.salt as usize) % 2 == 0 { (i, j, 1) } else { (j, i, 1) }).collect() };
@@ -134,7 +181,7 @@ pub fn g_run(c: &GCase) -> Outcome {
         }};
     }
     // (a u8-indexed Graph cannot hold 255 or more edges)
-    let enc = if c.enc % 8 == 1 && edges.len() >= 255 { 0 } else { c.enc % 8 };
+    let enc = if c.enc % 8 == 1 && (edges.len() >= 255 || n >= 255) { 0 } else { c.enc % 8 };
     match enc {
         0 => {
             enc_check!(to_graph::<i32, Undirected, u32>(&a, |w| w).graph6_string(), "Graph<u32>");
@@ -156,7 +203,19 @@ pub fn g_run(c: &GCase) -> Outcome {
             dec_check!(StableGraph<(), (), Undirected, u32>, "StableGraph", |g: &StableGraph<(), (), Undirected, u32>| (g.node_count(), g.edge_count()), |g: &StableGraph<(), (), Undirected, u32>, i, j| g.contains_edge(NodeIndex::new(i), NodeIndex::new(j)));
         }
         5 => {
-            enc_check!(to_graphmap::<i32, Undirected>(&a, |w| w).graph6_string(), "GraphMap");
+            if n <= 100 {
+                enc_check!(to_graphmap::<i32, Undirected>(&a, |w| w).graph6_string(), "GraphMap");
+            } else {
+                // (the scrambled keys of to_graphmap are injective up to 101 labels only)
+                let mut gm: GraphMap<u32, i32, Undirected, RandomState> = GraphMap::default();
+                for i in 0..n {
+                    gm.add_node(i as u32);
+                }
+                for &(x, y, w) in &a.edges {
+                    gm.add_edge(x as u32, y as u32, w);
+                }
+                enc_check!(gm.graph6_string(), "GraphMap");
+            }
             dec_check!(GraphMap<u32, (), Undirected, RandomState>, "GraphMap", |g: &GraphMap<u32, (), Undirected, RandomState>| (g.node_count(), g.edge_count()), |g: &GraphMap<u32, (), Undirected, RandomState>, i, j| g.contains_edge(i as u32, j as u32));
         }
         6 => {
@@ -595,6 +654,7 @@ pub fn property() -> Property {
         both_profiles: false,
         subs: vec![
             sub("graph6/encode+decode", 200_000, 3_000_000, g_strategy, g_run),
+            sub("graph6/large-orders", 1_000, 20_000, gl_strategy, gl_run),
             sub("dot/wellformed+faithful", 800_000, 16_000_000, d_strategy, d_run),
         ],
     }
